@@ -237,7 +237,7 @@ macro_rules! c20_b {
 }
 // @ob C20 thorough shape_b_3x3 fns=<ShapeB as ArgParse>::arg_parse(derive),u8::from_str,UnixStr::as_str bound="<=3 arguments of <=3 arbitrary bytes each" stubs="core::fmt::write -> Ok, writes nothing" timeout=2400 mem=44
 c20_b!(shape_b_3x3, 3, 6);
-// @ob C20 quick shape_b_2x3 fns=<ShapeB as ArgParse>::arg_parse(derive),u8::from_str,UnixStr::as_str bound="<=2 arguments of <=3 arbitrary bytes each (3 arguments need 24-44 GB: thorough tier)" stubs="core::fmt::write -> Ok, writes nothing" timeout=1800 nocover=1
+// @ob C20 quick shape_b_2x3 fns=<ShapeB as ArgParse>::arg_parse(derive),u8::from_str,UnixStr::as_str bound="<=2 arguments of <=3 arbitrary bytes each (3 arguments need 24-44 GB: thorough tier)" stubs="core::fmt::write -> Ok, writes nothing" timeout=2400 mem=44 nocover=1
 c20_b!(shape_b_2x3, 2, 6);
 // @ob C20 thorough shape_b_4x3 fns=<ShapeB as ArgParse>::arg_parse(derive),u8::from_str bound="<=4 arguments of <=3 arbitrary bytes each" stubs="core::fmt::write -> Ok, writes nothing" timeout=3400 mem=44
 c20_b!(shape_b_4x3, 4, 7);
